@@ -652,3 +652,36 @@ def equivalent_reg_calls(pol, reg):
         out.append(("roots in a hand-written Mapping", lambda: call(d(), pem_root_certs_bytes_by_fmt=lambda m: _UserMap(m))))
         out.append(("roots as tuples in an OrderedDict", lambda: call(d(), pem_root_certs_bytes_by_fmt=lambda m: collections.OrderedDict((k, tuple(v)) for k, v in m.items()))))
     return out
+
+
+
+def new_parameter_values(fname):
+    """[(parameter, value)] for the parameters the changed source added to the public function `fname` (harness/srcdict.new_parameters): members of the enum the
+    annotation names, booleans, algorithm ids, None, a few generic values"""
+    from harness import srcdict
+    out = []
+    try:
+        import webauthn.helpers.structs as st, webauthn.helpers.cose as cose, enum
+        for name, ann in srcdict.new_parameters().get(fname, []):
+            vals = []
+            for modx in (st, cose):
+                for cname, cls in vars(modx).items():
+                    if isinstance(cls, type) and issubclass(cls, enum.Enum) and cname in ann:
+                        vals += list(cls)
+            if "bool" in ann or not ann:
+                vals += [True, False]
+            if "int" in ann or name.endswith("alg") or "alg" in name:
+                vals += [-7, -257, -8, -37, -36, -65535, -258, 0, 1]
+            if "str" in ann:
+                vals += ["", "x", "public-key"]
+            if "bytes" in ann:
+                vals += [b"", b"x"]
+            vals += [None, 1, "required"]
+            seen = []
+            for v in vals:
+                if not any(v is w or (type(v) is type(w) and v == w) for w in seen):
+                    seen.append(v)
+            out += [(name, v) for v in seen[:14]]
+    except Exception:
+        pass
+    return out
